@@ -114,8 +114,10 @@ PROPS = {
                 {"harness": RT + "c09_managed_error_new_and_drop", "fn": "src/xvalue.rs :: ManagedXError::{new, drop}"},
             ]},
             {"kind": "verus", "unit": "size"},
+            {"kind": "verus", "unit": "intsize"},
             {"kind": "verus", "unit": "managed"},
             {"kind": "verus", "unit": "nlargest"},
+            {"kind": "verus", "unit": "nlpre"},
             {"kind": "verus", "unit": "galloc"},
         ],
         "unreached": ["dyn_size of XStack (walks Rc strong counts), XMapping, XSet, Regex; that every container value is built through ManagedXValue::new (argued from the private fields of the struct); the pre-flight checks of the individual natives (V-intops decides those of the integer builtins, V-nlargest the capacity request of n_largest / n_smallest)"],
